@@ -245,3 +245,6 @@ func specFixedOf(p ControlPacket) bits {
 	}
 	return 0
 }
+
+// specMalformedFmt is the format withForm uses to mark a malformed packet.
+const specMalformedFmt = "%s, malformed! %s %s"
